@@ -59,6 +59,35 @@ def _enc(rec, fn, *args):
     return second
 
 
+HOSTS = ["http://pzv.jp/p.html?", "https://pzplus.tck.mn/p?", "http://localhost:8080/p?", "https://my-puzzles.example.org/p.html?",
+         "https://puzz.link/p?"]
+
+
+def _other_host(rec, module, name, h, w, problem, url, k):
+    """the generic URL layer under the module's codec, with the documented `prefix` option: the same combinator, another
+    pzpr host (a port, a hyphen, the .html form) - the text after the prefix is the same, the URL is recognised and decodes
+    to the same problem with its size"""
+    from cspuz import problem_serializer as PS
+    comb = next((getattr(module, a) for a in dir(module) if a.endswith("_COMBINATOR")), None)
+    if comb is None:
+        return
+    prefix = HOSTS[k % len(HOSTS)]
+    try:
+        url2 = PS.serialize_problem_as_url(comb, name, h, w, problem, prefix=prefix)
+        if not url.startswith("https://puzz.link/p?") or url2 != prefix + url[len("https://puzz.link/p?"):]:
+            rec["host_ok"], rec["host_why"] = False, "text-after-the-prefix-differs"
+            return
+        if PS.get_puzzle_info_from_url(url2) != (name, h, w):
+            rec["host_ok"], rec["host_why"] = False, "get_puzzle_info_from_url-does-not-recognise-it"
+            return
+        d = PS.deserialize_problem_as_url(comb, url2, allowed_puzzles=name, return_size=True)
+        d0 = PS.deserialize_problem_as_url(comb, url, allowed_puzzles=name, return_size=True)
+        if d is None or d != d0 or (d[0], d[1]) != (h, w):
+            rec["host_ok"], rec["host_why"] = False, "decodes-differently-from-the-puzz.link-url"
+    except Exception as e:  # noqa
+        rec["host_ok"], rec["host_why"] = False, "raised-" + type(e).__name__
+
+
 def run_case(case):
     from cspuz.puzzle import (nurikabe, sudoku, nurimisaki, slitherlink, masyu, yajilin, lits, norinori, heyawake,
                               compass, star_battle, aquarium, util)
@@ -67,7 +96,7 @@ def run_case(case):
     rec = {"case": case, "status": "ok", "exc": "", "frame_ok": False, "name": "", "width": -1, "height": -1, "extra": -1,
            "body": "", "body2": "", "expected_name": NAMES[mod], "has_decoder": False, "dec_status": "ok", "dec_h": -1,
            "dec_w": -1, "dec_cells": [], "dec_rooms": [], "dec_vals": [], "dec_clues": [], "legacy_applicable": False,
-           "legacy_same": True, "url": "", "second_encoding_differs": False}
+           "legacy_same": True, "url": "", "second_encoding_differs": False, "host_ok": True, "host_why": ""}
     enc = dec = None
     legacy = None
     try:
@@ -92,6 +121,8 @@ def run_case(case):
                     rec["dec_cells"] = [back(v) for row in d for v in row]
             except Exception as e:  # noqa
                 rec["dec_status"] = type(e).__name__
+            _other_host(rec, {"nurikabe": nurikabe, "sudoku": sudoku, "nurimisaki": nurimisaki, "slither": slitherlink,
+                              "masyu": masyu, "yajilin": yajilin}[mod], NAMES[mod], h, w, problem, url, len(url) + h)
             # legacy helper encoder vs combinator codec on identical data
             if mod in ("nurikabe", "sudoku", "nurimisaki"):
                 empty = {"nurikabe": 0, "sudoku": 0, "nurimisaki": -1}[mod]
@@ -114,6 +145,7 @@ def run_case(case):
                     rec["dec_rooms"] = [[y * w + x for (y, x) in room] for room in d[2]]
             except Exception as e:  # noqa
                 rec["dec_status"] = type(e).__name__
+            _other_host(rec, f, NAMES[mod], h, w, rooms, url, len(url) + h)
             rec["legacy_applicable"] = True
             legacy = util.encode_grid_segmentation(h, w, util.blocks_to_block_id(h, w, rooms))
         elif mod == "heyawake":
